@@ -567,6 +567,8 @@ def _run(ctx):
         for _ in range(m):
             if rng.random() < 0.2:
                 data.append(None)
+            elif rng.random() < 0.12:
+                data.append(Fraction(0))              # empty clones: zero is a value, not a missing value
             elif style < 0.6:
                 data.append(Fraction(rng.randint(1, rng.choice([3, 10, 1000]))))
             else:
